@@ -61,7 +61,10 @@ impl NamedAlg {
 #[macro_export]
 macro_rules! leak_crc {
     ($t:ty, $a:expr) => {{
-        let c: &'static crc::Crc<$t> = Box::leak(Box::new(crc::Crc::<$t>::new($a)));
+        // one leaked table per algorithm (keyed by the address of the catalogue constant), not one per call
+        thread_local! { static POOL: std::cell::RefCell<std::collections::HashMap<usize, &'static crc::Crc<$t>>> = Default::default(); }
+        let alg: &'static crc::Algorithm<$t> = *$a;
+        let c: &'static crc::Crc<$t> = POOL.with(|p| *p.borrow_mut().entry(alg as *const crc::Algorithm<$t> as usize).or_insert_with(|| Box::leak(Box::new(crc::Crc::<$t>::new(alg)))));
         c
     }};
 }
